@@ -142,6 +142,27 @@ func sinksMain(args []string) {
 		case 5: // FileSink /dev/null and stdout
 			tbl, toks := genTable()
 			cfg := p.intn(4)
+			if p.chance(1, 5) {
+				// a device on which every write fails (ENOSPC), before and after the sink's one retry: an error,
+				// never success; and a standard stream that is closed
+				ev := &eventlogger.Event{Formatted: map[string][]byte{"json": []byte("{\"k\":1}\n")}}
+				full := &eventlogger.FileSink{Path: "/dev", FileName: "full"}
+				if _, err := full.Process(ctx, ev); err == nil {
+					oracle("C13 FileSink reported success although the underlying write failed (and failed again on the retry): /dev/full")
+				}
+				closed, _ := os.CreateTemp("", "closed")
+				os.Remove(closed.Name())
+				closed.Close()
+				oldOut := os.Stdout
+				os.Stdout = closed
+				_, err := (&eventlogger.FileSink{Path: "/dev/stdout"}).Process(ctx, ev)
+				os.Stdout = oldOut
+				if err == nil {
+					oracle("C13 FileSink reported success although the underlying write failed: closed standard output")
+				}
+				st.hit("fsspecial:failing-writes")
+				continue
+			}
 			if p.chance(1, 2) {
 				s := &eventlogger.FileSink{Path: "/dev/null", Format: fmtNames[cfg]}
 				_, err := s.Process(ctx, nil) // does not even look at the event
